@@ -1221,7 +1221,6 @@ func (s *Service) queryEventExpire(v interface{}) {
 	simYield("queryEventExpire", qe.r.rname)
 	qe.sub.Drain()
 	simYield("queryEventExpire.afterDrain", qe.r.rname)
-	s.runWith(qe.r.Group(), func() {
-		qe.cb(nil)
-	})
+	// The query listener makes the last call to the callback, and exits
+	close(qe.done)
 }
